@@ -197,6 +197,19 @@ def one_case(run, seed, idx, mods, tier=None):
         lio.labelpeaks(img, thr)
         run.count("labelpeaks_runs")
         check_labels(run, V, "labelimage.labelpeaks", lio.blim, lio.npk, mask, True, refs[True])
+        # the same object over a series of frames (this is how it is used): a frame with nothing above the threshold,
+        # a thresholded copy of the first frame, the first frame again - the label image and the count must be those of
+        # the frame just given, whatever the object held before
+        series = [(np.full(shape, thr - 1.0, np.float32), "empty"),
+                  (np.where(r.random(shape) < 0.5, img, np.float32(thr - 1.0)).astype(np.float32), "thinned"),
+                  (np.full(shape, thr, np.float32), "at-threshold"),
+                  (img, "again")]
+        for fimg, what in series:
+            fmask = fimg > thr
+            lio.labelpeaks(fimg, thr)
+            run.count("labelpeaks_history_frames")
+            fref = imgs.ref_label(fmask, True) if fmask.any() else (np.zeros(shape, np.int32), 0)
+            check_labels(run, V, "labelimage.labelpeaks:history(%s)" % what, lio.blim, lio.npk, fmask, True, fref)
     # ---- sparse variants (8-connected) on the same pixels; the sparse frame may also hold pixels <= threshold:
     # policy 0 stores exactly the pixels above threshold, 1 adds 10% others, 2 stores every pixel, 3 (only when
     # nothing is above threshold) stores 30% of the pixels - a frame with stored pixels and no component
@@ -367,3 +380,4 @@ def check(run, replay=None):
     run.require_counter("metadata_threshold_runs", 100)
     run.require_counter("uint16_frames", 10)
     run.require_counter("labelpeaks_runs", 20)
+    run.require_counter("labelpeaks_history_frames", 60)
